@@ -12,6 +12,10 @@ These are executed symbolically:
     and the scheme must be expanded.
   * the resulting members go through the real ad_to_evol_map + to_flavor_basis_tensor; the tensor is applied to a symbolic pdf
     vector f[pid, x]: goal out == f on gluon + 6 quarks + 6 antiquarks (+ photon with QED); photon row and column zero in QCD.
+  * state carried between computations: every obligation is stated for the operator as computed after all the operators that
+    went through compute() earlier in the same worker process (the unity cases enumerate 72 configurations in a row; the
+    sequence cases run every ordered pair of perturbative orders (P, Q): P first -- including copy_ns_ops -- then Q, with
+    different nf).  The history is part of the replay, which re-runs it on the real runner.parts.evolve in one interpreter.
 Polarised / time-like flags, solution method, iteration counts are shown not to be read on the shortcut path (the config dict
 raises if they are), hence the result does not depend on them.
 """
@@ -36,6 +40,12 @@ UNREAD = ("method", "ev_op_max_order", "ev_op_iterations", "polarized", "time_li
 
 class IntegrationReached(Exception):
     pass
+
+
+# every Operator.compute() that completed on the shortcut path in THIS process, in order: [nf, g, order, scheme, thr].
+# A worker process starts from a parent that has only imported the modules, so this is the complete computation history
+# the operator under test can depend on (class-level / module-level state of eko); replays re-run it on the real code.
+_HISTORY = []
 
 
 class GuardedConfig(dict):
@@ -101,15 +111,18 @@ def case_unity(log, nf, g):
                     _one(log, evop, mods, nf, g, (oq, oe), scheme, thr)
 
 
-def _one(log, evop, mods, nf, g, order, scheme, thr):
+def _one(log, evop, mods, nf, g, order, scheme, thr, check=True):
+    """check=False: only run compute() (a predecessor in a sequence), nothing is asserted about it here"""
     member, physical, _matching, fl = mods
     qed = order[1] > 0
-    kw = {"nf": nf, "g": g, "order": list(order), "scheme": scheme, "thr": thr}
-    tag = "nf=%d order=%r scheme=%s is_threshold=%s grid=%d" % (nf, order, scheme, thr, g)
+    me = [nf, g, list(order), scheme, thr]
+    kw0 = {"nf": nf, "g": g, "order": list(order), "scheme": scheme, "thr": thr}
+    tag = "nf=%d order=%r scheme=%s is_threshold=%s grid=%d%s" % (nf, order, scheme, thr, g, " after %d earlier operators in the same process" % len(_HISTORY) if _HISTORY else "")
     leaks = set()
 
     def run():
         touched = set()
+        kw = dict(kw0, history=[list(h) for h in _HISTORY])
         mu2 = SR.var("mu2")
         xif2 = SR.var("xif2")
         assume(mu2, ">0")
@@ -132,6 +145,9 @@ def _one(log, evop, mods, nf, g, order, scheme, thr):
             v = failed("%s: compute() raised %s: %s" % (tag, type(e).__name__, e))
             decide_once(log, v, key="Operator.compute:raises", replay=(MOD, "replay", kw), candidates=[{"xif2": Fraction(1)}])
             return "raise"
+        _HISTORY.append(me)
+        if not check:
+            return "shortcut"
         # shortcut taken: blow the members up exactly like runner.parts.evolve and apply to a symbolic pdf
         try:
             val, _err = physical.PhysicalOperator.ad_to_evol_map(op.op_members, op.nf, op.q2_to, qed).to_flavor_basis_tensor(qed)
@@ -170,6 +186,22 @@ def _one(log, evop, mods, nf, g, order, scheme, thr):
 
 def _sampler(rng):
     return {"xif2": Fraction(1), "__seed__": rng.randint(1, 10**6)}
+
+
+def case_sequence(log, nf, nf_prev, g):
+    """Operators computed one after the other in the same process (segments / targets / cards of a driver script): for every
+    ordered pair of perturbative orders (P, Q) an operator with order P (nf_prev flavours) goes through compute() -- on the
+    shortcut that includes copy_ns_ops -- and then the operator with order Q (nf flavours) must still be the identity.  The whole
+    computation history of the process is part of every obligation and of its replay."""
+    evop, mods = _mods()
+    Op = evop.Operator
+    log.encode(Op.compute, Op.initialize_op_members, Op.copy_ns_ops, Op.labels.fget)
+    evop.logger = SimpleNamespace(info=lambda *a, **k: None, warning=lambda *a, **k: None, debug=lambda *a, **k: None)
+    orders = [(oq, oe) for oq in (1, 2, 3, 4) for oe in (0, 1, 2)]
+    for P in orders:
+        for Q in orders:
+            _one(log, evop, mods, nf_prev, g, P, None, False, check=False)
+            _one(log, evop, mods, nf, g, Q, None, False)
 
 
 def case_recipe(log):
@@ -219,8 +251,8 @@ def replay_recipe(point):
 # replay: the real runner.parts.evolve on real cards (tiny grid); if the shortcut is not taken the real Mellin
 # integration runs (slow without JIT but finite)
 # ---------------------------------------------------------------------------
-def replay(point, nf, g, order, scheme, thr):
-    import copy
+def _real_evolve(nf, g, order, scheme, thr, xif2):
+    """runner.parts.evolve of the real code on real cards for target == origin; returns (tensor, grid size, integrate calls)"""
     import numpy as np
     from dataclasses import dataclass
 
@@ -230,12 +262,8 @@ def replay(point, nf, g, order, scheme, thr):
     from eko.matchings import Segment
     from eko.runner import parts
     from ekobox import cards
+    import eko.evolution_operator as evop
 
-    xif2 = float(Fraction(point.get("xif2", 1)))
-    if xif2 <= 0:
-        return None
-    if scheme == "expanded" and abs(xif2 - 1.0) > 1e-12:
-        return None  # outside the statement: expanded scale variation with a non-unit ratio
     tc = cards.example.theory()
     oc = cards.example.operator()
     tc.order = tuple(order)
@@ -266,8 +294,6 @@ def replay(point, nf, g, order, scheme, thr):
         operator_card: object
 
     # non-intrusive spy: records that the real Mellin integration was entered, then delegates to it
-    import eko.evolution_operator as evop
-
     reached = []
     real_integrate = evop.Operator.integrate
 
@@ -279,13 +305,41 @@ def replay(point, nf, g, order, scheme, thr):
     try:
         res = parts.evolve(FakeEKO(tc, oc), Evolution.from_atlas(Segment(mu0**2, mu0**2, nf), cliff=thr))
     except Exception as e:  # noqa
-        import traceback
-
-        return {"detail": "runner.parts.evolve for target == origin (nf=%d, order=%r, scheme=%s, xif2=%r, cliff=%s) %sraises %s: %s\n%s"
-                          % (nf, order, scheme, xif2, thr, "does not take the unity shortcut (Operator.integrate entered) and " if reached else "", type(e).__name__, e, traceback.format_exc()[-400:])}
+        e._reached = len(reached)
+        raise
     finally:
         evop.Operator.integrate = real_integrate
-    T = np.asarray(res.operator, dtype=float)
+    return np.asarray(res.operator, dtype=float), n, mu0, len(reached)
+
+
+def replay(point, nf, g, order, scheme, thr, history=()):
+    """the computation history of the worker process (earlier target == origin operators, all on the shortcut path) is re-run
+    on the real code in this clean interpreter, then the operator under test"""
+    import traceback
+    import numpy as np
+
+    xif2 = float(Fraction(point.get("xif2", 1)))
+    if xif2 <= 0:
+        return None
+    if scheme == "expanded" and abs(xif2 - 1.0) > 1e-12:
+        return None  # outside the statement: expanded scale variation with a non-unit ratio
+    hist = ""
+    if history:
+        try:
+            for h in history:
+                _real_evolve(h[0], h[1], h[2], h[3], h[4], 1.0)
+        except Exception as e:  # noqa
+            return {"detail": "an earlier target == origin operator %r raises %s: %s" % (h, type(e).__name__, e)}
+        last = history[-1]
+        hist = " computed after %d earlier target == origin operators in the same process (the last one: nf=%d, order=%r, scheme=%s, cliff=%s)" % (
+            len(history), last[0], last[2], last[3], last[4])
+    reached = 0
+    try:
+        T, n, mu0, reached = _real_evolve(nf, g, order, scheme, thr, xif2)
+    except Exception as e:  # noqa
+        return {"detail": "runner.parts.evolve for target == origin (nf=%d, order=%r, scheme=%s, xif2=%r, cliff=%s)%s %sraises %s: %s\n%s"
+                          % (nf, order, scheme, xif2, thr, hist, "does not take the unity shortcut (Operator.integrate entered) and " if getattr(e, "_reached", 0) else "",
+                             type(e).__name__, e, traceback.format_exc()[-400:])}
     qed = order[1] > 0
     want = np.zeros_like(T)
     for o, p in enumerate(M.PIDS):
@@ -298,8 +352,8 @@ def replay(point, nf, g, order, scheme, thr):
     # integration is the identity only up to quadrature accuracy, i.e. the weights are not "exactly one"
     if dev > 1e-9 or (reached and dev > 1e-15):
         idx = np.unravel_index(np.argmax(np.abs(T - want)), T.shape)
-        return {"detail": "runner.parts.evolve for target == origin (mu0^2=%r, nf=%d, order=%r, scheme=%s, xif2=%r, cliff=%s, %d-point grid): %soperator[%s,%d,%s,%d] = %r, identity has %r (max deviation %.3e)"
-                          % (mu0**2, nf, order, scheme, xif2, thr, n, "the unity shortcut was NOT taken (Operator.integrate entered); " if reached else "",
+        return {"detail": "runner.parts.evolve for target == origin (mu0^2=%r, nf=%d, order=%r, scheme=%s, xif2=%r, cliff=%s, %d-point grid)%s: %soperator[%s,%d,%s,%d] = %r, identity has %r (max deviation %.3e)"
+                          % (mu0**2, nf, order, scheme, xif2, thr, n, hist, "the unity shortcut was NOT taken (Operator.integrate entered); " if reached else "",
                              M.NAMES[idx[0]], idx[1], M.NAMES[idx[2]], idx[3], float(T[idx]), float(want[idx]), dev)}
     return None
 
@@ -311,10 +365,13 @@ def main():
                   "mu0^2 > 0 and xif2 = (muF/muR)^2 > 0 symbolic reals; target scale identical to the initial scale (same symbol)",
                   "grid size 1 and 2 (thorough: 1..8); the grid enters only through its size (np.eye(grid_size)); interpolation degree is not read",
                   "pdf vector f[pid, x] symbolic in [-1,1]; float weights read as rationals, identity within 1e-12",
+                  "computation histories: the 72-configuration enumeration of each unity case, and for each nf all 144 ordered pairs of orders (predecessor with another nf, "
+                  "scheme none, grid 2) in the sequence cases; predecessors are target == origin operators on the shortcut path",
                   "polarised / time-like / method / iterations / max order / N3LO variation: shown not to be read on the shortcut path (guarded config)"]
     chk.out_of_claim = ["the Mellin integration and everything numerical (reached only for expanded scale variation with xif != 1, which the statement excludes)",
                         "'weight exactly one' at float level (normalised weights such as 1/6 are rounded; identity holds within 1e-12)",
                         "the converse (that the shortcut is NOT taken for expanded scale variation with xif != 1) is a different property and is not decided here",
+                        "histories containing operators with target != origin (they need the Mellin integration) or that took the integration path",
                         "archive round trip EKO.read(path)[(mu0^2, nf0)]; debug_skip_* flags; targets whose scale differs from mu0^2 by rounding",
                         "consistency checks of the cards themselves (matching scales placed so that the point is consistent)"]
     chk.stubs = ["Operator built by __new__ with config / managers stand-ins exposing exactly what compute() reads (grid size, order, xif2, ModSV, debug flags)",
@@ -326,6 +383,8 @@ def main():
     for nf in (3, 4, 5, 6):
         for g in gs:
             chk.case("unity.nf%d.g%d" % (nf, g), case_unity, nf=nf, g=g)
+    for nf in (3, 4, 5, 6):
+        chk.case("sequence.nf%d.g2" % nf, case_sequence, nf=nf, nf_prev=3 + (nf - 2) % 4, g=2)
     chk.case("recipe", case_recipe)
     return chk.run()
 
